@@ -7,7 +7,7 @@ MANIFEST = dict(
     technique="Coq proof (induction over arbitrary result lists and operation histories, fold_left invariants) on a Gallina model of "
               "check_baseline_ops.rs and runner.rs:330-392, tied by library-level differential execution of the extracted model against the "
               "re-exported functions and by replaying edit/update/check histories on the real CLI over a small universe",
-    text="Theorems C09_roundtrip, C09_unrecorded_always_fails, C09_new_never_drops, C09_modes_preserve_other_kind, C09_update_idempotent, "
+    text="Theorems C09_roundtrip, C09_unrecorded_always_fails, C09_new_never_drops, C09_modes_preserve_other_kind, C09_update_idempotent, C09_grandfathering_by_key_only (an entry belongs to its path: recorded hash and line count never decide), "
          "C09_history_inv, C09_update_run_not_truncated / C09_update_under_fail_fast_same_file (an updating run ignores fail-fast), C09_path_without_key_always_fails / "
          "C09_baseline_keys_stay_valid(_history) (paths that are not valid UTF-8 have no key) hold for every result list, baseline, flag set and operation history (unbounded); the one class the code "
          "violates (a backslash in a file name is a separator for the key: K09_backslash_name) carries C09_key_injective_refuted and C09_key_injective_modulo_known. The tie is a seeded differential run of apply_baseline_comparison / "
@@ -24,14 +24,14 @@ def gen_histories(ctx):
     rng = ctx.rng
     if ctx.tier == "quick":
         hs = [rand_history(rng, 10) for _ in range(170)]
-        gr = [grown_history(rng) for _ in range(40)]
+        gr = [grown_history(rng) for _ in range(40)] + [ratchet_update_history(rng) for _ in range(40)]
         ex = list(exhaustive_histories(2, start_states=("oo---o",)))      # ./b.rs and ./B.rs both over the limit
         rng.shuffle(ex)
-        return hs + gr + ex[:120], {"sampled_len<=10": len(hs), "recorded_file_grew_then_fail_fast": len(gr), "exhaustive_len<=2_subsample": 120}
+        return hs + gr + ex[:120], {"sampled_len<=10": len(hs), "recorded_file_grew_then_fail_fast / ratchet_and_update_in_one_run": len(gr), "exhaustive_len<=2_subsample": 120}
     ex = list(exhaustive_histories(3, start_states=("oo---o",)))
     hs = [rand_history(rng, 10) for _ in range(1500)]
-    gr = [grown_history(rng) for _ in range(300)]
-    return ex + hs + gr, {"exhaustive_len<=3": len(ex), "sampled_len<=10": len(hs), "recorded_file_grew_then_fail_fast": len(gr)}
+    gr = [grown_history(rng) for _ in range(300)] + [ratchet_update_history(rng) for _ in range(300)]
+    return ex + hs + gr, {"exhaustive_len<=3": len(ex), "sampled_len<=10": len(hs), "recorded_file_grew_then_fail_fast / ratchet_and_update_in_one_run": len(gr)}
 
 
 def run(ctx):
@@ -47,19 +47,20 @@ def run(ctx):
     nu = nonutf8_phase(ctx, bins, model)
     bs = backslash_phase(ctx, bins, model)
     cb = custom_baseline_phase(ctx, bins, model)
+    mv = moved_file_phase(ctx, bins, model, ctx.tier == "quick")
     xcheck_model(ctx, model, 40 if ctx.tier == "quick" else 300)
-    ctx.cov["evaluations"] = lib["cases"] + hp["steps"] + ee["traces"] + nu["steps"] + bs["steps"] + cb["steps"]
+    ctx.cov["evaluations"] = lib["cases"] + hp["steps"] + ee["traces"] + nu["steps"] + bs["steps"] + cb["steps"] + mv["traces"]
     ctx.cov["distinct_nontrivial"] = hp["nontrivial"]
     ctx.cov["traces_validated_against_impl"] = hp["steps"] + ee["traces"] + nu["steps"] + bs["steps"] - len(hp["mismatches"]) - len(ee["mismatches"]) - len(nu["mismatches"]) - len(bs["mismatches"])
     ctx.cov["rule"] = ("library level: seeded result lists (49 path spellings incl. backslashes, empty, non-ASCII, pairs differing in letter case only, two paths that are not valid UTF-8 with one lossy form and that lossy form as a key; all categories and statuses) x baselines through "
                        "apply / update (4 modes, with and without an existing baseline) / ratchet / tighten / exit, implementation vs extracted model and vs one-line specs; "
                        "CLI level: histories of edits, --update-baseline <mode> (with/without --baseline, with/without fail-fast by flag or config) and checks (flags, [baseline] ratchet, [check] fail_fast, --files) over 6 files "
                        "(./b.rs and ./B.rs differ in letter case only) / 3 directories with sizes under/warn/over, with the tool's own state files (.sloc-guard/, the default baseline file, a temporary file of a killed save) lying in the root,  observables statuses + exit + baseline file vs check_step; --files lists with an unreadable entry (I/O error) before "
-                       "recorded / unrecorded violations in every order under fail-fast; non-UTF-8 file names sharing a lossy form (update, check, legacy file with the lossy key); a file name containing a backslash (known finding); a custom-named baseline file written into a root directory at its max_files limit (known finding) next to the default name and a file outside the tree (must round-trip). "
+                       "recorded / unrecorded violations in every order under fail-fast; non-UTF-8 file names sharing a lossy form (update, check, legacy file with the lossy key); a file name containing a backslash (known finding); a renamed recorded file (the entry of the vanished path carries the hash and line count of an unrecorded failing file: entries belong to paths) in --files runs and scans with and without fail-fast; ratchet warn / strict / auto (flag or config) x --update-baseline new / content / structure in ONE run with resolved content and structure entries (only auto may remove, new / the other kind keep theirs); a custom-named baseline file written into a root directory at its max_files limit (known finding) next to the default name and a file outside the tree (must round-trip). "
                        "non-trivial = histories with at least one update, one edit and a non-empty baseline on disk at some step")
     ctx.cov["input_distribution"] = {"library": lib["dist"], "histories": dict(dist, corpus=len(corpus)), "cli_steps": hp["steps"], "cli_spawns": hp["spawns"],
                                      "fail_fast_steps": hp["ff_traces"], "files_left_by_killed_updates": hp["killed_update_residues"], "library_nontrivial": lib["nontrivial"],
-                                     "fail_fast_traces_with_unreadable_entry": ee["traces"], "steps_with_non_utf8_paths": nu["steps"], "steps_backslash_name": bs["steps"], "steps_custom_baseline_file(in the tree / default name / outside)": cb["steps"]}
+                                     "fail_fast_traces_with_unreadable_entry": ee["traces"], "steps_with_non_utf8_paths": nu["steps"], "steps_backslash_name": bs["steps"], "traces_renamed_recorded_file(entry of a gone path carries the hash of an unrecorded file)": mv["traces"], "steps_custom_baseline_file(in the tree / default name / outside)": cb["steps"]}
     ctx.cov["model_vs_impl_mismatches"] = len(lib["mismatches"]) + len(hp["mismatches"]) + len(ee["mismatches"]) + len(nu["mismatches"]) + len(bs["mismatches"])
     for s in lib["sample"][:1] + hp["sample"][:2]:
         ctx.sample(s)
@@ -74,9 +75,9 @@ def run(ctx):
     fails = [f for f in lib["oracle_failures"] if f["prop"] == "C09"]
     for f in fails[:3]:
         ctx.violation({"kind": "property-oracle", "what": f["what"], "first_mismatch": {"case": f["case"]}})
-    n = report_findings(ctx, "C09", hp["findings"] + ee["findings"] + nu["findings"] + bs["findings"] + cb["findings"])
+    n = report_findings(ctx, "C09", hp["findings"] + ee["findings"] + nu["findings"] + bs["findings"] + cb["findings"] + mv["findings"])
     if not fails and not n:
-        tie = lib["mismatches"] + hp["mismatches"] + hp["structural"] + ee["mismatches"] + nu["mismatches"] + bs["mismatches"] + cb["mismatches"]
+        tie = lib["mismatches"] + hp["mismatches"] + hp["structural"] + ee["mismatches"] + nu["mismatches"] + bs["mismatches"] + cb["mismatches"] + mv["mismatches"]
         report_tie(ctx, "C09", "sgv-check / sloc-guard check == extracted Check.Baseline (apply, update, check_step)", tie, proofs_ok, lib["errs"])
 
 
